@@ -26,5 +26,13 @@ if pid == "C16":
     extra += "\nNOTE: the unchanged compiler already has some crash sites reachable from odd inputs (they are known); your change must introduce a NEW way to crash or hang the compiler on an input that the unchanged compiler handles with a normal diagnostic or success."
 if pid == "C19":
     extra += f"\nNOTE: a probe dynamic library is needed to exercise `call_lib`; see the repository's `ffi/` crate for the calling convention; build your own dylib crate inside {wt}/_seed/probe (bytecode = {{ path = \"../../bytecode\" }}, crate-type dylib) with CARGO_TARGET_DIR={wt}/target so that it links the same `bytecode` build as the binary. Bytecode can be written in the human-readable form and run with `mscript execute --transpile x.transpiled.mmm`."
+FLAV = {
+ "sites": "PREFERRED KIND OF BUG FOR THIS ROUND: two cooperating sites that each look fine alone - e.g. a producer and a consumer of some intermediate datum (an offset, a flag, a register name, a cache key, a length) that silently disagree for one particular combination.",
+ "sequence": "PREFERRED KIND OF BUG FOR THIS ROUND: one that needs a MULTI-STEP SEQUENCE to manifest - state left behind by an earlier operation / statement / call / compilation changes what a later one does; a single isolated use must still behave correctly.",
+ "boundary": "PREFERRED KIND OF BUG FOR THIS ROUND: one that needs an UNUSUAL INPUT OR BOUNDARY VALUE to manifest (a particular magnitude, sign, length, emptiness, character class, count or position), all ordinary values behaving correctly.",
+ "nesting": "PREFERRED KIND OF BUG FOR THIS ROUND: one that needs a PARTICULAR NESTING OR COMBINATION OF CONSTRUCTS (construct A inside / next to construct B, in a particular position of a particular enclosing form) to manifest, each construct on its own behaving correctly.",
+}
+if len(sys.argv) > 3:
+    extra += "\n" + FLAV[sys.argv[3]] + "\n"
 open(f"/tmp/agent_prompt_{pid}r{rnd}.txt", "w").write(t.replace('{WT}', wt).replace('{PROP}', prop + extra))
 print(wt)
